@@ -930,20 +930,17 @@ class InlinedExpressionGenMapper(
                     or isinstance(res, (bool, np.bool_)))
             return res
 
-    def map_comparison(self, expr: prim.Comparison,
-                       prstnt_ctx: PersistentExpressionContext,
-                       local_ctx: LocalExpressionContext
-                       ) -> Expression:
-        # loopy infers the type of a comparison from 'left - right', which is
-        # not defined for a Boolean constant (e.g. an inlined full(shape, True)).
-        # In a comparison, a Boolean is its integer value.
-        def rec_operand(operand: Expression) -> Expression:
-            res = self.rec(operand, prstnt_ctx, local_ctx)
-            return int(res) if isinstance(res, (bool, np.bool_)) else res
-
-        return prim.Comparison(rec_operand(expr.left),
-                               expr.operator,
-                               rec_operand(expr.right))
+    def map_constant(self, expr: object,
+                     prstnt_ctx: PersistentExpressionContext,
+                     local_ctx: LocalExpressionContext
+                     ) -> Expression:
+        # loopy's (and pymbolic's) arithmetic and comparisons are not defined on
+        # Boolean constants (loopy e.g. infers the type of a comparison from
+        # 'left - right'): a Boolean constant, such as the value of
+        # full(shape, True), is generated as its integer value.
+        if isinstance(expr, (bool, np.bool_)):
+            return int(expr)
+        return cast("Expression", expr)
 
     def map_call(self, expr: prim.Call,
                  prstnt_ctx: PersistentExpressionContext,
